@@ -414,6 +414,32 @@ func (r *run) openReader() (*e2elib.Client, *gortsplib.Client) {
 	return nil, nil
 }
 
+// playAgainGrace is how long a hook command that must not exist is given to write its marker line.
+const playAgainGrace = 2 * time.Second
+
+// openRawReader opens the RTSP reader that writes its requests itself.
+func (r *run) openRawReader() (*e2elib.Client, *e2elib.RawRTSP) {
+	var c *e2elib.Client
+	var rr *e2elib.RawRTSP
+	for try := 0; try < 3; try++ {
+		switch r.l.Proto {
+		case "rtsp":
+			c, rr = e2elib.RTSPRawRead(r.addr(e2elib.PRTSP), pathName, anon, e2elib.RTSPOpts{})
+		case "rtsps":
+			c, rr = e2elib.RTSPRawRead(r.addr(e2elib.PRTSPS), pathName, anon, e2elib.RTSPOpts{TLS: true})
+		default:
+			r.fail("no raw reader for %s", r.l.Proto)
+		}
+		if c.Outcome == e2elib.OutOK {
+			r.clients = append(r.clients, c)
+			return c, rr
+		}
+		c.Close()
+	}
+	r.fail("raw reader: %s", c.Err)
+	return nil, nil
+}
+
 func (r *run) openPublisher() *e2elib.Client {
 	var c *e2elib.Client
 	for try := 0; try < 3; try++ {
@@ -505,7 +531,15 @@ func (r *run) readLifecycle() {
 		pi, err := r.api.PathGet(pathName)
 		return err == nil && pi != nil && pi.Ready, err
 	})
-	subject, subjectRTSP := r.openReader()
+	var subject *e2elib.Client
+	var subjectRTSP *gortsplib.Client
+	var subjectRaw *e2elib.RawRTSP
+	if strings.HasPrefix(r.l.Ending, "playagain") {
+		// the client of gortsplib refuses a second Play() while playing: the reader under test writes its requests itself
+		subject, subjectRaw = r.openRawReader()
+	} else {
+		subject, subjectRTSP = r.openReader()
+	}
 	bystander, _ := r.openReader()
 	sat := r.attachOf(subject, "read")
 	bat := r.attachOf(bystander, "read")
@@ -563,6 +597,30 @@ func (r *run) readLifecycle() {
 			r.step("playing again")
 		}
 		subject.Close()
+		r.waitGone("the closed reader to leave", sat.ID)
+	case "playagain", "playagain-pause":
+		// PLAY of a session that is playing (accepted by the server): the reader goes on playing, it is ONE play
+		if err = subjectRaw.Play(); err != nil {
+			r.fail("second PLAY: %v", err)
+		}
+		r.step("PLAY sent again while playing")
+		// nothing has to happen, so there is no condition to wait for: a start command spawned by mistake is given the
+		// time to write its line (the wait ends at once when it does; the verdict is the pairing, not the time)
+		e2elib.WaitFor(playAgainGrace, func() (bool, error) { //nolint:errcheck
+			return r.countLines(sID+" start") >= 2, nil
+		})
+		if r.l.Ending == "playagain-pause" {
+			if err = subjectRaw.Pause(); err != nil {
+				r.fail("PAUSE: %v", err)
+			}
+			r.waitLine(sID+" stop", 1)
+			r.step("paused")
+			e2elib.WaitFor(playAgainGrace, func() (bool, error) { //nolint:errcheck
+				return r.countLines(sID+" stop") >= 2, nil
+			})
+		}
+		subject.Close()
+		r.step("reader closed")
 		r.waitGone("the closed reader to leave", sat.ID)
 	case "publeave":
 		r.feeder.Stop()
